@@ -16,6 +16,7 @@ type c09Case struct {
 	Profile int   `json:"profile"`
 	Prefix  []int `json:"prefix"` // first documents of the history
 	Depth   int   `json:"depth"`  // total history length explored below this prefix
+	Exact   bool  `json:"exact,omitempty"` // run exactly the history in Prefix (size-threshold histories with the huge document)
 }
 
 const seedProfileInverse = `profile: seed inverse
@@ -38,12 +39,18 @@ func c09Profiles() []string {
 }
 
 var c09DocCache []string
-var c09DocNames = []string{"plain", "nested", "levels", "lexical", "empty-graph", "not-json", "jsonld-error", "large-128", "amf-compact"}
+var c09DocNames = []string{"plain", "nested", "levels", "lexical", "empty-graph", "not-json", "jsonld-error", "large-128", "amf-compact", "huge-600"}
+
+const c09Alphabet = 9 // the search alphabet; the huge document (report > 1 MiB) only occurs in the Exact histories
 
 func c09Docs() []string {
 	if c09DocCache == nil {
 		s := Seeds()
-		c09DocCache = []string{s[0].Data, s[1].Data, s[3].Data, s[2].Data, `{}`, `{"@graph":[`, `{"@id":1}`, TruthTableGraph(7, false).FlatJSONLD(), s[5].Data}
+		huge := &Graph{}
+		for i := 0; i < 600; i++ {
+			huge.Add(nid(i), EX+"T").P(EX+"p2", "not in the list").P(EX+"name", "n").P(EX+"num", 0)
+		}
+		c09DocCache = []string{s[0].Data, s[1].Data, s[3].Data, s[2].Data, `{}`, `{"@graph":[`, `{"@id":1}`, TruthTableGraph(7, false).FlatJSONLD(), s[5].Data, huge.FlatJSONLD()}
 	}
 	return c09DocCache
 }
@@ -61,12 +68,19 @@ func c09Gen(tier string, emit func(c09Case)) {
 	if tier == "thorough" {
 		depth = 5
 	}
-	nd := len(c09Docs())
+	nd := c09Alphabet
 	for p := range c09Profiles() {
 		for a := 0; a < nd; a++ {
 			for b := 0; b < nd; b++ {
 				emit(c09Case{Profile: p, Prefix: []int{a, b}, Depth: depth})
 			}
+		}
+	}
+	// size threshold: a report above 1 MiB somewhere in the history (profiles whose report on it is that large)
+	for _, p := range []int{0} {
+		for x := 0; x < nd; x++ {
+			emit(c09Case{Profile: p, Prefix: []int{9, x, 9, x}, Exact: true})
+			emit(c09Case{Profile: p, Prefix: []int{x, 9, x, x}, Exact: true})
 		}
 	}
 }
@@ -84,7 +98,11 @@ func c09FreshRefs(c *Ctx, p int) []c09Ref {
 	}
 	prof := c09Profiles()[p]
 	var refs []c09Ref
-	for _, d := range c09Docs() {
+	for di, d := range c09Docs() {
+		if di >= c09Alphabet && p != 0 {
+			refs = append(refs, c09Ref{})
+			continue // the huge document is only used with profile 0
+		}
 		r := Validate(prof, d)
 		if r.Panic != nil {
 			panic("harness: fresh validation panics: " + r.ErrString())
@@ -99,7 +117,7 @@ func c09Run(c *Ctx, cs c09Case) {
 	prof := c09Profiles()[cs.Profile]
 	docs := c09Docs()
 	refs := c09FreshRefs(c, cs.Profile)
-	nd := len(docs)
+	nd := c09Alphabet
 	hist := append([]int{}, cs.Prefix...)
 	var rec func()
 	runHistory := func(h []int) {
@@ -145,6 +163,15 @@ func c09Run(c *Ctx, cs c09Case) {
 			rec()
 			hist = hist[:len(hist)-1]
 		}
+	}
+	if cs.Exact {
+		runHistory(cs.Prefix)
+		c.Count("states", int64(len(cs.Prefix)))
+		c.Count("transitions", int64(len(cs.Prefix)))
+		c.Count("traces_validated_against_impl", int64(len(cs.Prefix)))
+		c.Max("largest_report_bytes", int64(len(refs[9].report)))
+		c.Nontrivial(fmt.Sprintf("%d/exact/%v", cs.Profile, cs.Prefix))
+		return
 	}
 	if len(hist) > cs.Depth {
 		hist = hist[:cs.Depth]
